@@ -105,6 +105,10 @@ func floors(tier string) map[string]int64 {
 		"entry:blockchain.decodeMsg":                     680,
 		"entry:evidence.decodeMsg":                       680,
 		"entry:consensus.WALDecoder":                     680,
+		"raw_inputs":                                     47000,
+		"raw_accepted":                                   25000,
+		"raw_rejected":                                   21000,
+		"raw_class:forged-size":                          13000,
 	}
 	if tier == "thorough" {
 		for k, v := range f {
@@ -350,6 +354,7 @@ func run(c *core.Ctx) {
 			deep = true
 		}
 	}
+	cs.rawLane(r.Split(), valids)
 	if richRoundTrip && deep {
 		h := sha256.New()
 		h.Write([]byte(tg.name))
